@@ -51,26 +51,36 @@ func (tl *TaskLane) startQueue(index int) {
 	for {
 		select {
 		case <-tl.ctx.Done():
+			vhook(tl, "q.exit.take", index, nil)
 			return
 		case task = <-tl.bufferedQueueList[index]:
+			vhook(tl, "q.took", index, task)
 		}
 		tl.blockingTaskCnt.Add(1)
+		vhook(tl, "q.inc", index, task)
 		select {
 		case <-tl.ctx.Done():
+			vhook(tl, "q.exit.chk", index, task)
 			return
 		default:
 			select {
 			case tl.blockingQueueList[index] <- task:
+				vhook(tl, "q.sent.fast", index, task)
 			default:
+				vhook(tl, "q.offer", index, task)
 				select {
 				case <-tl.ctx.Done():
+					vhook(tl, "q.exit.offer", index, task)
 					return
 				case tl.blockingQueueList[index] <- task:
+					vhook(tl, "q.sent.own", index, task)
 				case tl.universalQueue <- task:
+					vhook(tl, "q.sent.uni", index, task)
 				}
 			}
 		}
 		tl.blockingTaskCnt.Add(^uint32(0)) // decrement blockingTaskCnt
+		vhook(tl, "q.dec", index, task)
 	}
 }
 
@@ -81,16 +91,22 @@ func (tl *TaskLane) startWorker(index int) {
 	for {
 		select {
 		case <-tl.ctx.Done():
+			vhook(tl, "w.exit.chk", index, nil)
 			return
 		default:
 			select {
 			case task = <-tl.blockingQueueList[index]:
+				vhook(tl, "w.got.fast", index, task)
 			default:
+				vhook(tl, "w.listen", index, nil)
 				select {
 				case <-tl.ctx.Done():
+					vhook(tl, "w.exit.listen", index, nil)
 					return
 				case task = <-tl.blockingQueueList[index]:
+					vhook(tl, "w.got.own", index, task)
 				case task = <-tl.universalQueue:
+					vhook(tl, "w.got.uni", index, task)
 				}
 			}
 		}
@@ -98,10 +114,12 @@ func (tl *TaskLane) startWorker(index int) {
 			defer func() {
 				if err := recover(); err != nil {
 					tl.lastPanic = err
+					vhook(tl, "w.recovered", index, task)
 				}
 			}()
 			task.Start()
 		}()
+		vhook(tl, "w.done", index, task)
 	}
 }
 
